@@ -50,7 +50,7 @@ def judge(ctx):
             ctx.label("count-not-checked:rejections")
 
 
-CFG = G.cfg(blocks=("cross", "cross", "multi"))
+CFG = G.cfg(blocks=("cross", "cross", "multi", "repeat", "merge", "nest"))
 P = D.DesignProperty(
     "C06", judge,
     rule=("case = generated design spec in the reference domain with few enough valid sequences to enumerate; RandomGen is asked for "
